@@ -112,6 +112,8 @@ def gen_case(run_seed: int, index: int, tier: str) -> dict:
             ops.append(["oneshot", [rng.randrange(npool) for _ in range(rng.randrange(1, 5))]])
         elif r < p_reset + p_compute + 0.12:
             ops.append(["helper", rng.randrange(npool)])
+        elif r < p_reset + p_compute + 0.135:
+            ops.append(["neutral", rng.choice(["eval", "train", "to_cpu", "float", "zero_grad", "state_dict_read", "str"])])
         elif r < p_reset + p_compute + 0.15 and L >= 3:
             nd = [b for b in range(2, L) if L % b != 0]
             if nd and metric != "ber":
@@ -333,6 +335,25 @@ def execute(case: dict) -> RunResult:
             if not _close(hb, ob) or not _close(hb, ke / kt):
                 violate("StandardMetrics.block_error_rate", "helper", f"helper = {hb!r}, BlockErrorRate = {ob!r}, exact = {ke / kt!r} (block size {Bsz})")
             res.probes["helper"] += 1
+        elif op[0] == "neutral":
+            # operations of the nn.Module interface that must not disturb the accumulated counts
+            for o in objs.values():
+                if op[1] == "eval":
+                    o.eval()
+                elif op[1] == "train":
+                    o.train()
+                elif op[1] == "to_cpu":
+                    o.to("cpu")
+                elif op[1] == "float":
+                    o.float()
+                elif op[1] == "zero_grad":
+                    o.zero_grad()
+                elif op[1] == "state_dict_read":
+                    o.state_dict()
+                else:
+                    str(o)
+            res.faults["history.neutral_module_op"] += 1
+            log.add("neutral", op[1])
         elif op[0] == "reject":
             bs, r = op[1], op[2]
             x = _mk_tensor(case, [r], "X", "2d")
